@@ -4,7 +4,7 @@ from vlib import *
 import elisp_mini as E
 
 PROP = "C19"
-CONS = "tbjfhswrypkgzcv"
+CONS = "tbjfhswrypkgzcvdm"       # the consonants that double (every consonant that begins a table spelling, save n and the x/l small-kana prefixes)
 GENS = ["gen_elisp"]
 CONE = ["Base/Str.v", "Base/ListUtil.v", "Kana/Romaji.v", "Kana/RomajiProofs.v", "Kana/RomajiIdem.v", "Props/C19.v", "Gen/ElispTables.v"]
 THEOREMS = ["C19_table_typeable", "C19_table_typeable_each", "C19_total", "C19_passthrough", "C19_kana_inert", "C19_sokuon", "C19_idempotent",
@@ -57,6 +57,7 @@ def run(tier, seed):
     inputs += ["ｋａ", "ｶ", "ｶﾞ", "㌔", "①", "㈱", "ゟ", "か\u3099", "は\u309a", "ｔｔａ", "Ａ", "１", "ka\u3099", "ﾞ", "ｰ", "￥"]
     for _ in range(60 if tier == "quick" else 2000):
         inputs.append("".join(rnd.choice(full[:26]) for _ in range(rnd.randint(66, 140))))
+    inputs += [k[0] + k for k, _ in table if k and k[0] in CONS]          # every table spelling behind its own doubled consonant
     inputs = list(dict.fromkeys(inputs))
     outs = [r2h(s) for s in inputs]
     tv = dict(table_first(table))
@@ -84,6 +85,22 @@ def run(tier, seed):
                 res.violation(f"doubled consonant: r2h({s!r}) = {o!r} but っ + r2h({s[1:]!r}) = {'っ' + o1!r}", {"kind": "sokuon", "input": s})
         if any(s[i] == s[i + 1] for i in range(len(s) - 1)) and any(c not in keychars for c in s) and any(len(k) > 1 and k in s for k, _ in table):
             nontriv += 1
+    # which consonants double?  At least every one the repository's own original-spelling conversion writes doubled for a sokuon
+    # (っ + the kana of a table spelling): typed back, that doubled consonant is っ followed by the remaining consonant
+    n_doubled = 0
+    if build_harness()[0]:
+        pairs = [(k, v) for k, v in table if isinstance(v, str) and k and k[0] not in "aiueon" and v not in ("っ",)]
+        spelled = harness([{"op": "kana_convert", "input": "っ" + v} for _, v in pairs])
+        for (k, v), sp in zip(pairs, spelled):
+            a = sp.get("ok")
+            if isinstance(a, str) and len(a) >= 2 and a[0] == a[1] and a[0] in "bcdfghjklmpqrstvwxyz":
+                n_doubled += 1
+                o, o1 = r2h(a), r2h(a[1:])
+                if o != "っ" + (o1 if isinstance(o1, str) else "?"):
+                    res.violation(f"doubled consonant: the repository spells {'っ' + v!r} as {a!r}, but r2h({a!r}) = {o!r} and っ + r2h({a[1:]!r}) = {'っ' + str(o1)!r}",
+                                  {"kind": "sokuon_class", "input": a, "kana": "っ" + v})
+    else:
+        res.tie_broken("harness build failed", "kana_convert is needed for the doubled-consonant class")
     for k, v in table:
         o = r2h(k)        # every listed entry, also one shadowed by an earlier entry with the same spelling
         if o != v:
